@@ -5,6 +5,7 @@ import (
 	"fmt"
 	"runtime/debug"
 	"strings"
+	"sync"
 	"sync/atomic"
 	"time"
 
@@ -134,7 +135,26 @@ func ParseReg(src []byte, keepFmt bool) (key string, o Obs) {
 		return nil, nil
 	})
 	pmObserve(src, keepFmt, o, dump)
+	keySrc.Store(key, string(src))
 	return
+}
+
+// keySrc: template key -> source, and the templates whose render did not return (what memoryGuard
+// reports when such renders take the process down)
+var (
+	keySrc  sync.Map
+	hangMu  sync.Mutex
+	hangSrc []string
+)
+
+func noteHang(key string) {
+	src, _ := keySrc.Load(key)
+	s, _ := src.(string)
+	hangMu.Lock()
+	if len(hangSrc) < 5 {
+		hangSrc = append(hangSrc, s)
+	}
+	hangMu.Unlock()
 }
 
 // Render renders key with ctx into a fresh buffer.
